@@ -119,6 +119,10 @@ func (h *Handler) receive(ctx context.Context, conn *net.UDPConn, queue chan dat
 				switch length, index, ok := parseHeader(buffer[:8]); {
 				case length == 0 && index == -1 && !ok:
 					h.onError(conn, core.InvalidRequestError{})
+				case length != n-8:
+					// the declared length must be the length of the datagram's body: the
+					// receive buffer is reused and still holds the bytes of earlier datagrams
+					h.onError(conn, core.InvalidRequestError{})
 				case length > h.Service.MaxRequestLength:
 					h.sendResponse(ctx, queue, index, nil, core.ErrRequestEntityTooLarge, addr)
 				default:
